@@ -73,6 +73,22 @@ theorem C18_replicas (del : Bool) (old expect : Int) (tpls : Nat) :
   · unfold changeScale; simp [Gen.K8s.scaleNoop, he]
   · unfold changeScale; simp [Gen.K8s.scaleNoop]
 
+/-- A rejected `Update` (conflict or any other error) leaves everything as it was: the replica
+    count is unchanged, no volume claim is deleted — in particular none of a shard that still
+    exists — and the error is reported.  For all counts, templates and flags. -/
+theorem C18_update_rejected (del : Bool) (cur : Option Int) (tpls : Nat) (expect : Int) :
+    (changeScaleE del cur tpls expect false).1.replicas = cur ∧
+    (changeScaleE del cur tpls expect false).1.deleted = [] ∧
+    ((changeScaleE del cur tpls expect false).1.updated = true → (changeScaleE del cur tpls expect false).2 = true) := by
+  unfold changeScaleE
+  split <;> simp
+
+/-- with an accepted `Update` the function is `changeScale`, and no error is returned -/
+theorem C18_update_accepted (del : Bool) (cur : Option Int) (tpls : Nat) (expect : Int) :
+    changeScaleE del cur tpls expect true = (changeScale del cur tpls expect, false) := by
+  unfold changeScaleE changeScale
+  split <;> simp_all
+
 /-- **C18 (rolling update)**: a StatefulSet whose updated replicas differ from its replicas is skipped -/
 theorem C18_rolling (r u : Int) : skipped r u = true ↔ r ≠ u := by
   simp [skipped, Gen.K8s.rollingSkip]
